@@ -315,4 +315,59 @@ theorem mkPC_simple_area (rule : String) (p : Part) (L : Int) (s : Loc) (hs : Ri
     have h1' : ¬ (b = L) := by omega
     simp [mkPC, bridgesOrigin, Loc.parts, Loc.start, Loc.end, Loc.strand, dupEnds, h1', h2, h3, pure, Except.pure]
 
+/-! ### later groups of the sweep start at least the cutoff after earlier groups end -/
+
+theorem go_hull_sep (lo hi : Loc → Int) (c : Int) : ∀ (ys : List Loc) (cur : Grp Loc), (∀ y ∈ ys, cur.glo ≤ lo y) →
+    Sorted lo ys → ∀ gs₁ g gs₂, go lo hi c cur ys = gs₁ ++ g :: gs₂ → ∀ g' ∈ gs₂, g.ghi + c ≤ g'.glo := by
+  intro ys
+  induction ys with
+  | nil =>
+    intro cur _ _ gs₁ g gs₂ h g' hg'
+    simp only [go] at h
+    have : gs₂ = [] := by
+      have hl := congrArg List.length h
+      simp only [List.length_cons, List.length_nil, List.length_append] at hl
+      exact List.eq_nil_of_length_eq_zero (by omega)
+    subst this; cases hg'
+  | cons y ys ih =>
+    intro cur hs hsorted gs₁ g gs₂ h g' hg'
+    simp only [go] at h
+    split at h
+    · exact ih _ (fun z hz => by have := hs z (by simp [hz]); simp only; omega) hsorted.tail gs₁ g gs₂ h g' hg'
+    · next hge =>
+      cases gs₁ with
+      | nil =>
+        simp only [List.nil_append, List.cons.injEq] at h
+        obtain ⟨rfl, hrest⟩ := h
+        have := (go_glo lo hi c ys ⟨lo y, hi y, [y]⟩ (fun z hz => hsorted.head_le z hz) hsorted.tail).2 g'
+          (by rw [hrest]; exact hg')
+        simp only at this
+        omega
+      | cons g₀ t =>
+        simp only [List.cons_append, List.cons.injEq] at h
+        exact ih _ (fun z hz => hsorted.head_le z hz) hsorted.tail t g gs₂ h.2 g' hg'
+
+theorem pairwise_of_split {α : Type} (R : α → α → Prop) : ∀ (l : List α),
+    (∀ l₁ a l₂, l = l₁ ++ a :: l₂ → ∀ b ∈ l₂, R a b) → l.Pairwise R := by
+  intro l
+  induction l with
+  | nil => intro _; exact List.Pairwise.nil
+  | cons x xs ih =>
+    intro h
+    rw [List.pairwise_cons]
+    refine ⟨fun b hb => h [] x xs rfl b hb, ih ?_⟩
+    intro l₁ a l₂ e b hb
+    exact h (x :: l₁) a l₂ (by rw [e]; rfl) b hb
+
+theorem sweep_hulls_apart (c : Int) (xs : List Loc) (hsorted : Sorted Loc.start xs) :
+    ((sweep Loc.start Loc.end c xs).map fun g => (g.glo, g.ghi)).Pairwise (fun a b => a.2 + c ≤ b.1) := by
+  rw [List.pairwise_map]
+  apply pairwise_of_split
+  intro l₁ a l₂ e b hb
+  cases xs with
+  | nil => simp [sweep] at e
+  | cons x rest =>
+    exact go_hull_sep Loc.start Loc.end c rest ⟨x.start, x.end, [x]⟩ (fun z hz => hsorted.head_le z hz) hsorted.tail
+      l₁ a l₂ e b hb
+
 end ASV.Proto
